@@ -9,6 +9,7 @@ Control dependence is recorded only at comparisons / truthiness / use as shift c
 import random
 
 TRACE = []
+HINTS = []
 
 
 def _lit_eq(lits, outcome):
@@ -86,10 +87,17 @@ class _Base(int):
         r = self.__eq__(o)
         return r if r is NotImplemented else not r
 
-    def __lt__(self, o): return self._conc() < (o._conc() if isinstance(o, _Base) else o)
-    def __le__(self, o): return self._conc() <= (o._conc() if isinstance(o, _Base) else o)
-    def __gt__(self, o): return self._conc() > (o._conc() if isinstance(o, _Base) else o)
-    def __ge__(self, o): return self._conc() >= (o._conc() if isinstance(o, _Base) else o)
+    def _hint(self, o):
+        # an order comparison with a constant: remember (provenance of the value, constant) so that the caller can also try the values next to the
+        # constant - order comparisons are decided by concretisation, which enumerates values one at a time and may stop before the boundary
+        src = getattr(self, 'src', None)
+        if src is not None and isinstance(o, int) and not isinstance(o, _Base):
+            HINTS.append((tuple(src), int(o)))
+
+    def __lt__(self, o): self._hint(o); return self._conc() < (o._conc() if isinstance(o, _Base) else o)
+    def __le__(self, o): self._hint(o); return self._conc() <= (o._conc() if isinstance(o, _Base) else o)
+    def __gt__(self, o): self._hint(o); return self._conc() > (o._conc() if isinstance(o, _Base) else o)
+    def __ge__(self, o): self._hint(o); return self._conc() >= (o._conc() if isinstance(o, _Base) else o)
     def __bool__(self): return self.__ne__(0)
     def __hash__(self): return hash(self._conc())
     def __index__(self): return self._conc()
@@ -334,15 +342,16 @@ def solve(constraints, nbits, rng):
 def enumerate_paths(fn, nbits=32, seed=0, limit=None, pre=(), fixed=()):
     rng = random.Random(seed)
     stack = [list(pre)]
-    n = 0
+    low = []            # alternatives that merely pick ANOTHER VALUE for a concretised field: explored after every flipped equality test, so that a
+    n = 0               # path limit cuts value enumeration, not decision structure
     infeasible = 0
-    while stack:
-        prefix = stack.pop()
+    while stack or low:
+        prefix = stack.pop(0) if stack else low.pop()          # breadth-first over flipped equality tests: every early decision is flipped before a limit hits
         w = solve(list(fixed) + prefix, nbits, rng)
         if w is None:
             infeasible += 1
             continue
-        TRACE.clear(); CUR_WORD[0] = w
+        TRACE.clear(); HINTS.clear(); CUR_WORD[0] = w
         try:
             out = fn(SymWord.word(w, nbits))
         except Exception as e:
@@ -361,7 +370,30 @@ def enumerate_paths(fn, nbits=32, seed=0, limit=None, pre=(), fixed=()):
         if prefix and prefix[-1][0] in ('nconc', 'npc'):
             start -= 1
         for i in range(max(start, len(pre)), len(trace)):
-            stack.append(trace[:i] + [negate(trace[i])])
+            alt = negate(trace[i])
+            (low if alt[0] in ('nconc', 'npc') else stack).append(trace[:i] + [alt])
         n += 1
         yield w, trace, out
         if limit and n >= limit: return
+
+
+def boundary_words(word, hints, nbits=32):
+    """words equal to `word` except that a value compared with a constant c takes c-1, c, c+1 (where representable in its source bits)"""
+    out = []
+    seen = set()
+    for src, c in hints:
+        width = len(src)
+        for v in (c - 1, c, c + 1):
+            if v < 0 or v >= (1 << width):
+                continue
+            w2 = word
+            ok = True
+            for i, sb in enumerate(src):
+                bit = (v >> i) & 1
+                if sb < 0:
+                    continue            # constant bit of the compared value: cannot be changed through the word
+                w2 = (w2 & ~(1 << sb)) | (bit << sb)
+            if ok and w2 != word and w2 not in seen and 0 <= w2 < (1 << nbits):
+                seen.add(w2)
+                out.append(w2)
+    return out
